@@ -95,6 +95,7 @@ def run(ctx):
                           v['kind'], show(c)[:70], s['conv'], mask_str(s['mask']),
                           {'to-success': 'a failure can reach a success exit of ' + fn.name,
                            'short-exit': 'a positive short read() is taken for end of file',
+                           'eof-exit': 'the end of the file inside a copy of known length is taken for the end of the copy',
                            'short-use': 'short read not handled',
                            'short-write': 'a short write can reach a success exit of ' + fn.name}[v['kind']],
                           v['what'], getattr(w, 'line', 0)),
